@@ -340,7 +340,12 @@ def canon(t, mod="A"):
   if isinstance(t, pytd.CallableType):
     return ("F", tuple(canon(p, mod) for p in t.args), canon(t.ret, mod))
   if isinstance(t, pytd.GenericType):
-    return ("G", name(t.base_type.name)) + tuple(canon(p, mod) for p in t.parameters)
+    ps = tuple(canon(p, mod) for p in t.parameters)
+    if all(p == "Any" for p in ps):
+      # a container whose parameters are all Any is the bare class (optimize.SimplifyContainers; a stub can still
+      # show `list[Any]` when AdjustReturnAndConstantGenericType rewrites `list[object]` after that pass)
+      return name(t.base_type.name)
+    return ("G", name(t.base_type.name)) + ps
   if isinstance(t, pytd.Literal):
     return ("L", str(t.value))
   if isinstance(t, pytd.Annotated):
